@@ -37,8 +37,8 @@ def fix_consts():
 
 
 def gen_cfg(cluster, mod, rem, variants, check, invs, emit=True):
-    s = 'SPECIFICATION Spec\nCONSTANTS %s\n Cluster = "%s" SampleMod = %d SampleRem = %d WithVariants = %s Check = %s EmitOn = %s\n' \
-        % (fix_consts(), cluster, mod, rem, 'TRUE' if variants else 'FALSE', 'TRUE' if check else 'FALSE',
+    s = 'SPECIFICATION Spec\nCONSTANTS %s\n Cluster = "%s" SampleMod = %d SampleRem = %d VKinds = {%s} Check = %s EmitOn = %s\n' \
+        % (fix_consts(), cluster, mod, rem, ', '.join('"%s"' % k for k in variants), 'TRUE' if check else 'FALSE',
            'TRUE' if emit else 'FALSE')
     s += 'CONSTRAINT Emit\n'
     if check:
@@ -57,31 +57,41 @@ def parse_families(out):
     return fams
 
 
-def generate(cluster, mod, rem, variants, check, invs, workers=3, timeout=1500, coverage=True):
+def generate(cluster, mod, rem, variants, check, invs, workers=3, timeout=1500):
+    """TLC's -coverage switches off the one-time evaluation of constant definitions (the catalogues are rebuilt at
+    every use: hours instead of seconds), so it is not used here.  The generator has a single action, Expand:
+    every non-initial state was produced by it, so its coverage count is measured as distinct - initial states."""
     res = tlc.run_tlc('UrlNormGen', gen_cfg(cluster, mod, rem, variants, check, invs), workers=workers,
-                      timeout=timeout, coverage=coverage, heap='3g')
+                      timeout=timeout, coverage=False, heap='3g')
     fams = parse_families(res['out'])
     res['out'] = _RE_FAM.sub('', res['out'])     # keep the TLC messages only
+    if res['ok']:
+        res['coverage'] = {'Expand': res['distinct'] - _n_init(res)}
     return fams, res
 
 
 # ------------------------------------------------------------------ plans
+V_AUTH = ('case', 'default-port', 'notation', 'fragment')
+V_PATH = ('dot-segment', 'dotdot-segment', 'fragment', 'escape-lower', 'escape-upper')
+V_ALL = ('case', 'default-port', 'notation', 'dot-segment', 'dotdot-segment', 'fragment', 'escape-lower', 'escape-upper')
+
+
 def plan(pid, tier, seed):
-    """(cluster, SampleMod, with variants) per tier.  Boundary / catalogue cases are always kept by the generator
+    """(cluster, SampleMod, variant kinds) per tier.  Boundary / catalogue cases are always kept by the generator
     (one-factor cluster A0, userinfo and scheme clusters A2 A3, short paths / strings); the rest is sampled by
     Hash(text) % mod = seed % mod."""
     quick = tier == 'quick'
     if pid == 'C10':
         if quick:
-            return [('A0', 1, True), ('A2', 1, True), ('A3', 1, True), ('A1', 12, True), ('B', 12, True),
-                    ('C', 10, True), ('D', 200, True), ('E', 1, True)]
-        return [('A0', 1, True), ('A2', 1, True), ('A3', 1, True), ('A1', 1, True), ('B', 1, True), ('C', 1, True),
-                ('D', 4, True), ('E', 1, True)]
+            return [('A0', 1, V_ALL), ('A2', 1, V_AUTH), ('A3', 1, V_AUTH), ('A1', 12, V_AUTH), ('B', 12, V_PATH),
+                    ('C', 10, V_PATH), ('D', 200, V_ALL), ('E', 1, ())]
+        return [('A0', 1, V_ALL), ('A2', 1, V_AUTH), ('A3', 1, V_AUTH), ('A1', 1, V_AUTH), ('B', 1, V_PATH),
+                ('C', 1, V_PATH), ('D', 4, V_ALL), ('E', 1, ('fragment',))]
     if quick:
-        return [('A0', 1, False), ('A2', 1, False), ('A3', 1, False), ('A1', 8, False), ('B', 12, False),
-                ('C', 8, False), ('E', 1, False), ('S', 25, False), ('SH', 3, False), ('S2', 8, False)]
-    return [('A0', 1, False), ('A2', 1, False), ('A3', 1, False), ('A1', 1, False), ('B', 1, False), ('C', 1, False),
-            ('D', 8, False), ('E', 1, False), ('S', 1, False), ('SH', 1, False), ('S2', 1, False)]
+        return [('A0', 1, ()), ('A2', 1, ()), ('A3', 1, ()), ('A1', 8, ()), ('B', 12, ()),
+                ('C', 8, ()), ('E', 1, ()), ('S', 25, ()), ('SH', 3, ()), ('S2', 8, ())]
+    return [('A0', 1, ()), ('A2', 1, ()), ('A3', 1, ()), ('A1', 1, ()), ('B', 1, ()), ('C', 1, ()),
+            ('D', 8, ()), ('E', 1, ()), ('S', 1, ()), ('SH', 1, ()), ('S2', 1, ())]
 
 
 # ------------------------------------------------------------------ real executions
@@ -214,8 +224,8 @@ def signature_c10(clause, rec, base, enc):
     parts = split_url(url)
     if clause in _TESTS:
         names = ('scheme', 'host') if clause == 'LowerSchemeHost' else ('scheme', 'userinfo', 'host', 'port', 'path', 'query')
-        sig['where'] = [k for k in names if _TESTS[clause](parts[k])]
-        if clause == 'LowerSchemeHost' and 'host' in sig['where']:
+        sig['where'] = ([k for k in names if _TESTS[clause](parts[k])] or ['?'])[0]     # first offending component
+        if clause == 'LowerSchemeHost' and sig['where'] == 'host':
             sig['host'] = host_shape(parts['host'])
     elif clause == 'DefaultPortOmitted':
         sig['port'] = 'default' if re.match(r'^:0*\d+$', parts['port']) else 'malformed'
@@ -230,18 +240,18 @@ def signature_c10(clause, rec, base, enc):
             d = differing(url, _s(rec['url2']))
             if clause == 'RoundTrip':
                 d = [k for k in d if k != 'userinfo']
-            sig['differs'] = d
-            if 'host' in d:
+            sig['differs'] = (d or ['?'])[0]               # first differing component
+            if sig['differs'] == 'host':
                 sig['host'] = '%s->%s' % (host_shape(parts['host']), host_shape(split_url(_s(rec['url2']))['host']))
     elif clause == 'VariantsAgree':
         vk = rec['vk']
-        sig['variant'] = 'notation' if vk.startswith('notation:') else ('escape-case' if vk.startswith('escape-') else vk)
+        sig['variant'] = 'escape-case' if vk.startswith('escape-') else vk
         bnet = base['oc'] == 'value' and base['uoc'] == 'value' and base['net']
         rnet = rec['oc'] == 'value' and rec['uoc'] == 'value' and rec['net']
         if bnet and rnet:
             d = differing(_s(base['url']), url)
-            sig['differs'] = d
-            if 'host' in d:
+            sig['differs'] = (d or ['?'])[0]
+            if sig['differs'] == 'host':
                 sig['host'] = '%s|%s' % tuple(sorted((host_shape(split_url(_s(base['url']))['host']), host_shape(parts['host']))))
         else:
             sig['outcomes'] = sorted(set(['network-url' if bnet else base['oc'], 'network-url' if rnet else rec['oc']]))
@@ -293,7 +303,7 @@ def run(chk):
     consts = []
     for (cluster, mod, variants), (fs, res) in zip(pl, gens):
         chk.design('UrlNormGen[%s,1/%d%s]' % (cluster, mod, ',variants' if variants else ''), res,
-                   constants=dict(Cluster=cluster, SampleMod=mod, SampleRem=chk.seed % mod, WithVariants=variants, **FIX),
+                   constants=dict(Cluster=cluster, SampleMod=mod, SampleRem=chk.seed % mod, VKinds=list(variants), **FIX),
                    expect_actions=['Expand'])
         if len(fs) != res['distinct'] - _n_init(res):
             raise tlc.TLCError('generator %s: %d families printed, %d done states' % (cluster, len(fs), res['distinct']))
